@@ -161,8 +161,8 @@ struct is_enumerable
 private:
 	template <typename T>
 	static std::enable_if_t<
-		std::is_convertible_v<decltype(std::declval<T>().begin().operator*()), typename T::value_type>
-		&& std::is_convertible_v<decltype(std::declval<T>().end().operator*()), typename T::value_type>, std::true_type> test(int);
+		std::is_convertible_v<decltype(*std::declval<T>().begin()), typename T::value_type>
+		&& std::is_convertible_v<decltype(*std::declval<T>().end()), typename T::value_type>, std::true_type> test(int);
 
 	template <typename>
 	static std::false_type test(...);
